@@ -319,6 +319,18 @@ def prop_special(did, k):
     return E
 
 
+def prop_extra(did):
+    """shapes written down after the sampled definitions (so that those keep their ids): keys of other derives next to props"""
+    def P(key, ty, val, grp, src=""):
+        return dict(key=cp(key), keysrc=key, ty=ty, val=(cp(val) if ty != "b" else val), src=src, grp=grp)
+    # `default` (EnumString / Display), `transparent`, `to_string`, `default_with` mean nothing to EnumProperty: the variant is an ordinary enabled one
+    return [enum(did, [variant("Known", props=[P("kind", "s", "word", 0)]),
+                       variant("Other", "tuple", [field("String")], default=True, props=[P("kind", "s", "ident", 0), P("weight", "i", "0", 0, "0")]),
+                       variant("Wrap", "tuple", [field("sstr")], transp=True, props=[P("kind", "s", "wrapped", 0), P("ok", "b", [1], 0, "true")]),
+                       variant("Named", "tuple", [field("u8")], ts="named", dwith="dw_u8", props=[P("weight", "i", "-3", 0, "-3")])]),
+            enum(did + 1, [variant("Other", "named", [field("String", "text")], default=True, props=[P("n", "i", "1", 0, "1")]), variant("Last", props=[P("n", "i", "2", 0, "2")])])]
+
+
 def prop_module(E, rng):
     src = SG.HEADER + D.in_user_scope(D.print_enum(E, ["EnumProperty"]), E) + "\n"
     if E["id"] % 2:
